@@ -126,6 +126,10 @@ def run(ctx):
 
     # (b) parallel stress on the race-enabled harness: many programs analysed concurrently, twice, identical results
     stress = []
+    # many independent packages that claim different imported interfaces: concurrent implementschecker passes over a shared dependency
+    from checks import c10
+    ad = c10.generated_programs()[-1]
+    stress.append((ad, set()))
     for i in range(96 if thorough else 32):
         v = gen_xpkg.variant(rng)
         prog, exp = gen_xpkg.build(v, "C11_st_%d" % i)
